@@ -35,7 +35,10 @@ LEVEL_TEXT = ('Theorems for every grid/level/request rectangle (mosaic georefere
               'feature-info position (any external transformation T), every WMS version / axis order combination, over the '
               'Gallina model Geo.v; the model is tied to the code by running the real functions and the real WSGI '
               'application on generated configurations and comparing with the model evaluated by vm_compute.')
-LEVEL_NOTE = ('Trusted: Coq kernel; hand-written model Geo.v/Grid.v; the correspondence harness and the synthetic upstream. '
+LEVEL_NOTE = ('Known findings reproduced by the oracle on the unchanged tree (known_findings.d/C01.json): RESTful WMTS GetFeatureInfo uses '
+              'the mirrored tile on south-origin grids; meta tiles with equal buffered bbox are dropped; sub-pixel truncations of '
+              'several stages add up to 1.5-3.5 px.  '
+              'Trusted: Coq kernel; hand-written model Geo.v/Grid.v; the correspondence harness and the synthetic upstream. '
               'IEEE-754 rounding is not modelled (exact stream: dyadic inputs, results compared exactly or within 2^-40 '
               'relative where a division is inexact). PROJ, PIL resampling kernels and the MESH path are not modelled: they '
               'are covered only by the per-pixel oracle on the running application.')
@@ -1013,7 +1016,8 @@ def build_app(ctx, conf):
     conf = json.loads(json.dumps(conf))
     conf.setdefault('globals', {})
     conf['globals'].setdefault('cache', {})
-    conf['globals']['cache'].update({'base_dir': os.path.join(d, 'cache'), 'lock_dir': os.path.join(d, 'locks'), 'tile_lock_dir': os.path.join(d, 'tlocks')})
+    # one tile creator thread: the check must be deterministic (concurrent creation belongs to C08)
+    conf['globals']['cache'].update({'concurrent_tile_creators': 1, 'base_dir': os.path.join(d, 'cache'), 'lock_dir': os.path.join(d, 'locks'), 'tile_lock_dir': os.path.join(d, 'tlocks')})
     conf['globals'].setdefault('image', {})
     conf['globals']['image'].update({'resampling_method': 'nearest', 'paletted': False})
     path = os.path.join(d, 'mapproxy.yaml')
@@ -1120,8 +1124,12 @@ def e2e_same_srs(ctx, T, grids_defs):
                 out_res = (bbox[2] - bbox[0]) / size[0]
                 up.cell = out_res / 2.0
                 up.requests = []
-                import shutil
-                shutil.rmtree(os.path.join(d, 'cache'), ignore_errors=True)
+                # a fresh application (empty cache) per request: the ground cell size of the synthetic upstream changes
+                try:
+                    app, d = build_app(ctx, conf)
+                except Exception as e:  # noqa
+                    ctx.fail('e2e:config', 'make_wsgi_app failed for a valid configuration: %r' % (e,), {'conf': conf})
+                    break
                 url = wms_url(version, 'lyr', bbox, size, code, ne)
                 rep = {'conf': conf, 'request': url, 'bbox': bbox, 'size': size, 'client_version': version}
                 if info['meta_buffer'] > 0 and kind != 'tiles':
@@ -1317,8 +1325,7 @@ def e2e_featureinfo(ctx):
                 # the tile that GetTile serves for the same address really shows `rect` (independent of the model)
                 up.cell = r_ / 2.0
                 up.requests = []
-                import shutil
-                shutil.rmtree(os.path.join(d, 'cache'), ignore_errors=True)
+                app, d = build_app(ctx, conf)
                 tresp = app.get(tile_url, expect_errors=True)
                 if tresp.status_int == 200:
                     pixel_oracle(ctx, up, tresp.body, rect, (gc.tw, gc.th), r_, None, None, rep, 'wmts-tile', tol_px=1.5, stages=1)
@@ -1424,8 +1431,7 @@ def e2e_reprojected(ctx):
                     cell = min(abs(b[0] - a[0]), abs(b[1] - a[1])) / 2.0
                 up.cell = cell
                 up.requests = []
-                import shutil
-                shutil.rmtree(os.path.join(d, 'cache'), ignore_errors=True)
+                app, d = build_app(ctx, conf)
                 rep = {'conf': conf, 'request': url, 'variant': variant}
                 try:
                     resp = app.get(url, expect_errors=True)
